@@ -162,6 +162,15 @@ func emitCut(id string, content []byte, cut int, signal string, ends string, kin
 		sched = []schedStep{{len(content) + 1, false}}
 	case "faild":
 		final = "fail:7"
+	case "zeros": // plain end of stream after a delivery with many zero-length reads (never 100 in a row)
+		for tot := 0; tot < cut+5; tot += 9 {
+			sched = append(sched, schedStep{0, false}, schedStep{0, false}, schedStep{9, false})
+		}
+	case "failz": // the same, ending with a reader failure
+		final = "fail:7"
+		for tot := 0; tot < cut+5; tot += 9 {
+			sched = append(sched, schedStep{0, false}, schedStep{0, false}, schedStep{9, false})
+		}
 	}
 	c := runScan(content[:cut], sched, final, false)
 	emit("cut", id, hexs(content), fmt.Sprint(cut), signal, ends, kind,
@@ -259,9 +268,9 @@ func opCut(r *rand.Rand, n int, tier string) {
 		}
 		off := r.Intn(step)
 		for cut := off; cut <= len(content); cut += step {
-			sig := []string{"eof", "fail", "faild"}[r.Intn(3)]
+			sig := []string{"eof", "fail", "faild", "zeros", "failz"}[r.Intn(5)]
 			if tier == "thorough" {
-				for _, sg := range []string{"eof", "fail", "faild"} {
+				for _, sg := range []string{"eof", "fail", "faild", "zeros", "failz"} {
 					emitCut(fmt.Sprintf("cut-%d-%d-%s", i, cut, sg), content, cut, sg, strings.Join(es, ","), kind)
 				}
 				continue
